@@ -14,6 +14,7 @@ import SvgVerif.Model.BBox
 import SvgVerif.Model.Shapes
 import SvgVerif.Model.PathParse
 import SvgVerif.Spec.PathSpec
+import SvgVerif.Model.PathPrint
 open Svg Svg.Wire
 
 def fmtMat (m : Mat Float) : String :=
@@ -221,6 +222,27 @@ def parseSeq (parts : List String) : List (PSeg Float) × Option PyErr :=
     | some _ => acc
     | none => parsePath numOvf acc.1 (stringOfHex h).toList) ([], none)
 
+
+-- ---------------------------------------------------------------- C07: d()
+def fmtCmd : Cmd Float → String
+  | .moveTo r p => "M " ++ bstr r ++ " " ++ fmtPt p
+  | .lineTo r p => "L " ++ bstr r ++ " " ++ fmtPt p
+  | .hTo r x => "H " ++ bstr r ++ " " ++ hexOfFloat x
+  | .vTo r y => "V " ++ bstr r ++ " " ++ hexOfFloat y
+  | .quadTo r c e => "Q " ++ bstr r ++ " " ++ fmtPt c ++ " " ++ fmtPt e
+  | .smoothQuadTo r e => "T " ++ bstr r ++ " " ++ fmtPt e
+  | .cubicTo r c1 c2 e => "C " ++ bstr r ++ " " ++ fmtPt c1 ++ " " ++ fmtPt c2 ++ " " ++ fmtPt e
+  | .smoothCubicTo r c2 e => "S " ++ bstr r ++ " " ++ fmtPt c2 ++ " " ++ fmtPt e
+  | .arcTo r rx ry rot fa fs e => "A " ++ bstr r ++ " " ++ hexOfFloat rx ++ " " ++ hexOfFloat ry ++ " " ++ hexOfFloat rot ++ " "
+      ++ bstr fa ++ " " ++ bstr fs ++ " " ++ fmtPt e
+  | .closePath r => "Z " ++ bstr r
+  | _ => "?"
+
+def optB (s : String) : Option Bool := if s = "1" then some true else if s = "0" then some false else none
+
+/-- `Point.__eq__` in floats: both coordinates within 1e-12 -/
+def eqvF (a b : Pt Float) : Bool := (a.x - b.x).abs <= 1e-12 && (a.y - b.y).abs <= 1e-12
+
 -- ---------------------------------------------------------------- C11
 def boxOf : List Float → Box Float
   | [x, y, w, h] => ⟨x, y, w, h⟩
@@ -229,6 +251,13 @@ def boxOf : List Float → Box Float
 def step (line : String) : String :=
   match line.splitOn "\t" with
   | "path.parse" :: parts => fmtParse (parseSeq parts)
+  | ["path.d", r, sm, h] =>
+      (match parsePath numOvf [] (stringOfHex h).toList with
+       | (segs, none) =>
+         (match pathD eqvF ⟨optB r, optB sm⟩ segs with
+          | some cs => "OK\t" ++ " | ".intercalate (cs.map fmtCmd)
+          | none => "NONE\t")
+       | (_, some e) => fmtErr e ++ "\t")
   | ["path.spec", c] =>
       (match cmdsOf c with
        | some cs => (match interp cs with | some l => "OK\t" ++ fmtPSegs l | none => "NONE\t")
